@@ -129,9 +129,6 @@ func (e *Engine) pkgByName(name string) *types.Package {
 	var best *types.Package
 	for path, p := range e.allPkgs {
 		if p.Types != nil && p.Types.Name() == name {
-			if strings.HasPrefix(path, modulePath) {
-				return p.Types
-			}
 			if best == nil || len(path) < len(best.Path()) {
 				best = p.Types
 			}
@@ -309,6 +306,11 @@ func (e *Engine) VerifyFunction(fn *ssa.Function, opts VerifyOpts) (u *Unit) {
 		}
 	}
 	x.run(st, TTrue)
+	// return sites are numbered in source order
+	sort.SliceStable(x.rets, func(i, j int) bool { return x.rets[i].pos < x.rets[j].pos })
+	for i := range x.rets {
+		x.rets[i].ord = i + 1
+	}
 	// postconditions per return site
 	if fc != nil && !opts.SafetyOnly {
 		names := resultNames(fn.Signature)
